@@ -40,7 +40,8 @@ sys.path.insert(0, os.path.dirname(os.path.abspath(__file__)))
 # property -> list of engine module names (run in order, results merged)
 ENGINE_MODULES = {
     "C01": ["eng_dynroots"],
-    "C03": ["eng_tables"],
+    "C03": ["eng_tables", "eng_layout"],
+    "C04": ["eng_layout"],
     "C09": ["eng_tables"],
     "C10": ["eng_tables"],
     "C11": ["eng_layout"],
